@@ -106,6 +106,11 @@ class RefRuleset:
                 pairs = _read_list_file(os.path.join(directory, sub, fn), self.encoding)
                 self.flat[var] = pairs
                 self.vars[var] = group_values(pairs)
+        for var, rel in (("E", os.path.join("Emails", "email_providers.txt")), ("W", os.path.join("Websites", "website_hosts.txt"))):
+            fp = os.path.join(directory, rel)
+            pairs = _read_list_file(fp, self.encoding) if os.path.exists(fp) else []
+            self.flat[var] = pairs
+            self.vars[var] = group_values(pairs)
         mp = os.path.join(directory, "Omen", "pcfg_omen_prob.txt")
         pairs = _read_list_file(mp, self.encoding) if os.path.exists(mp) else []
         self.flat["M"] = pairs
